@@ -755,7 +755,7 @@ def measure_report(root: Path, proj: dict, kind: int, evidence: list, n_pending:
 
 
 # ------------------------------------------------------------------ fallback model (recorded generated layer)
-MODEL_FILES = ["Lib/Base.v", "Lib/GenTypes.v", "Gen/OrchHistGen.v", "Model/OrchHist.v", "Model/OrchHistRun.v", "Actual/OrchHistActual.v"]
+MODEL_FILES = ["Lib/Base.v", "Lib/GenTypes.v", "Gen/OrchHistGen.v", "Model/OrchHist.v", "Model/OrchHistRun.v", "Actual/OrchHistActual.v", "Model/OrchConsts.v"]
 
 
 def fallback_theories(workdir: Path) -> Path | None:
